@@ -609,7 +609,7 @@ Theorem line_roundtrip : forall h r t,
   rec_ok h r -> write_line fmt_float h r = Some t ->
   read_eager prs_float h t = Some (canon h r) /\
   read_lazy prs_float h t = Some (canon h r) /\
-  lazy_panics t = false.
+  lazy_cr_class t = false.
 Proof.
   intros h r t Hok Hw.
   destruct Hok as (Hpos & (Hi1 & Hi2 & Hi3) & Href & (Ha1 & Ha2) & Hq & (Hf1 & Hf2 & Hf3) & (Hn1 & Hn2) & Hsmp).
@@ -688,7 +688,7 @@ Proof.
   - unfold read_lazy. rewrite Hsplit. cbn [fld nth length skipn].
     replace (_ <? 8)%nat with false by (symmetry; apply Nat.ltb_ge; lia).
     rewrite Pp, Ql, Il, Sl, IDl, ALl, FLl. reflexivity.
-  - unfold lazy_panics. rewrite Hsplit. cbn [skipn].
+  - unfold lazy_cr_class. rewrite Hsplit. cbn [skipn].
     destruct inf as [|i0 it]; [contradiction|].
     destruct cols as [|x [|y z]]; try reflexivity; destruct x; try reflexivity. contradiction.
 Qed.
@@ -794,13 +794,17 @@ Lemma witness_format_missing :
     read_eager w_prs (h0 2) t = Some r /\ read_lazy w_prs (h0 2) t = Some r0.
 Proof. eexists. split; [vm_compute; reflexivity|]. vm_compute. split; reflexivity. Qed.
 
-(* the known panic: INFO ends with CR and is followed by TAB LF *)
-Lemma witness_lazy_panic :
+(* the former panic class (INFO ends with CR and is followed by TAB LF): after the repair both
+   readers read the line, with LF and with CR LF, and keep the CR inside the INFO column *)
+Lemma witness_lazy_cr_class :
   let line := [99; 9; 53; 9; 46; 9; 65; 9; 46; 9; 46; 9; 46; 9; 46; 13; 9] in
-  lazy_panics line = true /\ read_lazy_p w_prs (h0 0) (line ++ [10]) = Panic /\
-  (exists rl, read_lazy_p w_prs (h0 0) (line ++ [13; 10]) = Ok rl) /\
-  exists re, read_eager w_prs (h0 0) line = Some re.
-Proof. vm_compute. repeat split; eexists; reflexivity. Qed.
+  let r := {| r_chrom := [99]; r_pos := 5; r_ids := []; r_ref := [65]; r_alts := []; r_qual := None;
+              r_filters := []; r_info := [([46; 13], Some VFlag)]; r_keys := []; r_samples := [] |} in
+  lazy_cr_class line = true /\
+  read_lazy_text w_prs (h0 0) (line ++ [10]) = Some r /\
+  read_lazy_text w_prs (h0 0) (line ++ [13; 10]) = Some r /\
+  read_eager_text w_prs (h0 0) (line ++ [10]) = Some r.
+Proof. vm_compute. repeat split. Qed.
 
 (* ---------------------------------------------------------------------------------------- *)
 (* VCF 4.5: where the SVLEN term decides the end (the input class of the known finding
